@@ -160,7 +160,7 @@ fn run(a: &Args) {
         let mut b = ToUnicodeCMapBuilder::new(w);
         let mut map: Vec<Value> = Vec::new();
         let mut used = std::collections::HashSet::new();
-        let pool: Vec<&str> = vec!["A", "é", "ff", "fi", "中", "😀", "€", " ", "(", "\\", "Ω", "x̂", "\u{feff}"];
+        let pool: Vec<&str> = vec!["A", "é", "ff", "fi", "中", "😀", "€", " ", "(", "\\", "Ω", "x̂", "\u{feff}", ""];
         for _ in 0..n {
             let v = if w == 1 { rng.below(256) } else { rng.below(65536) };
             if !used.insert(v) {
@@ -176,7 +176,21 @@ fn run(a: &Args) {
             map.push(json!({"code": code, "cps": s.chars().map(|c| c as u32).collect::<Vec<_>>()}));
         }
         let bytes = b.build();
-        out.line(&json!({"ev": "built", "case": bi, "width": w, "map": map, "bytes": bytes}));
+        // "parses back": the library's own parser on the text it generated, probed at every code that went in
+        let parsed = std::panic::catch_unwind(|| CMap::parse(&bytes));
+        let mut lib_ok = true;
+        for m in map.iter_mut() {
+            let code = bytes_of(&m["code"]);
+            let got = match &parsed {
+                Ok(Ok(c)) => c.map(&code),
+                _ => {
+                    lib_ok = false;
+                    None
+                }
+            };
+            m["lib"] = json!({"some": got.is_some(), "bytes": got.unwrap_or_default()});
+        }
+        out.line(&json!({"ev": "built", "case": bi, "width": w, "map": map, "bytes": bytes, "libParsed": lib_ok}));
         out.line(&json!({"ev": "chk_built"}));
     }
 }
